@@ -89,9 +89,11 @@ impl Serializable for StackInputs {
 
 impl Deserializable for StackInputs {
     fn read_from<R: ByteReader>(source: &mut R) -> Result<Self, DeserializationError> {
-        let count = source.read_u32()?;
+        let count = source.read_u32()? as usize;
 
-        let values = source.read_many::<Felt>(count as usize)?;
+        // the count is untrusted: make sure the elements are there before allocating space for them
+        source.check_eor(count.saturating_mul(core::mem::size_of::<u64>()))?;
+        let values = source.read_many::<Felt>(count)?;
         Ok(StackInputs { values })
     }
 }
